@@ -42,6 +42,40 @@ def bzcrc(data):
     return int('{:032b}'.format(v)[::-1], 2)
 
 
+def forge_crc(prefix, target):
+    """prefix + 4 bytes whose CRC-32/BZIP2 is `target` (the CRC is affine in
+    the last four bytes: solve the 32x32 system over GF(2))."""
+    prefix = bytes(prefix)
+    c0 = bzcrc(prefix + b'\0\0\0\0')
+    cols = []
+    for i in range(32):
+        e = (1 << i).to_bytes(4, 'big')
+        cols.append(bzcrc(prefix + e) ^ c0)
+    want = target ^ c0
+    # Gaussian elimination: rows = (column value, mask of suffix bits)
+    basis = {}
+    for i, v in enumerate(cols):
+        m = 1 << i
+        while v:
+            h = v.bit_length() - 1
+            if h not in basis:
+                basis[h] = (v, m)
+                break
+            bv, bm = basis[h]
+            v ^= bv
+            m ^= bm
+    x = 0
+    v = want
+    while v:
+        h = v.bit_length() - 1
+        bv, bm = basis[h]          # full rank: always present
+        v ^= bv
+        x ^= bm
+    out = prefix + x.to_bytes(4, 'big')
+    assert bzcrc(out) == target
+    return out
+
+
 def combine(cc, c):
     return (((cc << 1) & 0xFFFFFFFF) | (cc >> 31)) ^ c
 
